@@ -14,7 +14,7 @@ PARTS = {
     'beta': "namespace gtsam {\nnamespace sub {\nclass Beta {\n  Beta();\n};\n}\n}",
 }
 TPL = '{module_def} {{\n{includes}\n{boost_class_export}\n{wrapped_namespace}\n{submodules}\n{submodules_init}\n}}\n'
-ENDINGS = ['\n', '', '\n\n', '  ', '\n/* trailing */', '\n// trailing\n']      # ('// c' without newline is the known finding)
+ENDINGS = ['\n', '', '\n\n', '  ', '\n/* trailing */', '\n// trailing\n', '\n// c', ' // x; class']
 
 
 def pybind(rep, base):
